@@ -295,6 +295,82 @@ def o7(h, st):
     h.mat_equal("U(circuit) * phase == (step)^n", U, E, A, n)
     h.done()
 
+
+# O7b: trotterize on fermionic operators (scalar time or per-term dictionary, several steps) ---------------------------------------
+
+FERM_TERMS = [((0, 1), (1, 0)), ((1, 1), (0, 0)), ((2, 1), (2, 0)), (), ((2, 1), (3, 0)), ((3, 1), (2, 0))]
+
+
+def o7b_structures(tier):
+    sts = []
+    # terms on disjoint modes only (a hopping pair and a number operator on one of its modes do not commute)
+    combos = ([0, 1], [2], [0, 1, 2, 3], [4, 5, 3]) if tier == "quick" else ([0, 1], [2], [0, 1, 2, 3], [4, 5, 3], [0, 1, 4, 5], [2, 3])
+    for combo in combos:
+        for steps in (1, 2, 3):
+            for order in (1, 2):
+                for tmode in ("scalar", "dict"):
+                    for mapping in ("jw", "bk"):
+                        if tier == "quick" and mapping == "bk" and (steps == 3 or order == 2):
+                            continue
+                        sts.append({"terms": combo, "steps": steps, "order": order, "time": tmode, "mapping": mapping})
+    return sts
+
+
+@contract("C06", "O7b.trotterize.fermionic_operator", level="S", structures=o7b_structures, max_paths=200,
+          native_samples=lambda st, rnd, tier: [{f"c{j}": rnd.choice([rnd.uniform(0.2, 2), rnd.uniform(-2, -0.2)]) for j in range(4)} for _ in range(2)],
+          targets=[(AU, "trotterize"), (AU, "get_exponentiated_qubit_operator_circuit"), ("tangelo/toolboxes/qubit_mappings/mapping_transform.py", "fermion_to_qubit_mapping")])
+def o7b(h, st):
+    """fermionic input: hopping pairs (Hermitian, same coefficient and time for a term and its conjugate) and number operators on disjoint modes commute after
+    encoding, so (circuit, phase) must implement exp(-i sum_k t_k c_k Q(f_k)) EXACTLY, for a scalar time or a per-term time dictionary and every number of steps;
+    checked as an exact operator identity for every coefficient value; the fermionic operator passed in is unchanged"""
+    from fractions import Fraction
+    from tverif.engine import snapshot
+    from tangelo.toolboxes.operators import FermionOperator
+    from tangelo.toolboxes.qubit_mappings.mapping_transform import fermion_to_qubit_mapping
+    import openfermion.ops.operators.symbolic_operator as so
+    if ring.Poly not in so.COEFFICIENT_TYPES:
+        so.COEFFICIENT_TYPES = tuple(so.COEFFICIENT_TYPES) + (ring.Poly,)
+    n = 4
+    steps, order = st["steps"], st["order"]
+    idx = st["terms"]
+    # one coefficient per Hermitian group: terms 0/1 share c0, 4/5 share c2
+    group = {0: 0, 1: 0, 2: 1, 3: 3, 4: 2, 5: 2}
+    tgroup = {0: Fraction(1), 1: Fraction(1, 2), 2: Fraction(2), 3: Fraction(1)}
+    if st["time"] == "scalar":
+        tgroup = {k: Fraction(1) for k in tgroup}
+    cs = {}
+    for i in idx:
+        gk = group[i]
+        if gk not in cs:
+            dn = (tgroup[gk] / steps / (2 if order == 2 else 1)).denominator
+            # hopping a^0 a_1 + h.c. maps to c/2 (XX + YY): the half needs one more factor 2
+            cs[gk] = h.real(f"c{gk}", angle_denom=dn * 2)
+            h.assume(abs(cs[gk]) > 0.05)
+    op = FermionOperator()
+    for i in idx:
+        op.terms[FERM_TERMS[i]] = cs[group[i]]
+    before = snapshot(dict(op.terms))
+    if st["time"] == "dict":
+        time = {FERM_TERMS[i]: (ring.Poly(ring.Poly.const(tgroup[group[i]]).t, False) if h.symbolic else float(tgroup[group[i]])) for i in idx}
+    else:
+        time = ring.Poly(ring.Poly.const(Fraction(1)).t, False) if h.symbolic else 1.0
+    opts = {"qubit_mapping": st["mapping"], "n_spinorbitals": n, "up_then_down": False}
+    circuit, phase = h.call(AU, "trotterize", op, time, steps, order, False, opts, None, True)
+    h.check("fermionic operator argument unchanged", snapshot(dict(op.terms)) == before)
+    U, A = qsem.unitary(circuit._gates, n, exact=h.symbolic)
+    U = qsem.rows_scale(U, phase if not (isinstance(phase, float) and h.symbolic) else ring.Poly.const(phase), A)
+    # specification: every term with its own total time, encoded natively (openfermion / Tangelo mapping, assumed) - the words commute
+    total = FermionOperator()
+    for i in idx:
+        total.terms[FERM_TERMS[i]] = cs[group[i]] * (ring.Poly.const(tgroup[group[i]]) if h.symbolic else float(tgroup[group[i]]))
+    q = fermion_to_qubit_mapping(total, st["mapping"], n, None, False)
+    E = qsem.identity_rows(n, A)
+    for w, coef in q.terms.items():
+        cw = coef.real if hasattr(coef, "real") else coef
+        E = qsem.apply_exp_pauli(E, list(w), cw, n, A)
+    h.mat_equal("U(circuit) * phase == exp(-i sum_k t_k c_k Q(f_k))", U, E, A, n)
+    h.done()
+
 PROPERTY = {
     "level": "proof",
     "explanation": "S-level: for each enumerated structure (Pauli word, control placement, sign case) the real function's AST is executed "
